@@ -580,7 +580,9 @@ TRUSTED = [
     "(*Mutex).VerifStateWord to place harness-constructed state words",
     "modelled, not verified: Go atomics as sequentially consistent steps; goroutine scheduling as arbitrary interleaving of those steps; int64/int32 "
     "bit operations as Z.lor/Z.land/Z.lnot/Z.shiftr on signed Z; the AddIf64 predicate as a pure function of its argument; sync.Mutex Lock/Unlock "
-    "(runtime code without yield points) re-modelled from the Go 1.23 source in MutexWord.v, exercised only by the real-concurrency stress",
+    "(runtime code without yield points) modelled from the Go source in MutexWord.v and stepped against a copy of the toolchain's "
+    "Lock/lockSlow/Unlock/unlockSlow generated on every run (vlib/mxgen.py: token substitutions only; shims harness/cmd/mxstep/shim.go), "
+    "not against the compiled runtime: the runtime semaphore (token counter), runtime_canSpin/doSpin, runtime_nanotime (oracles) stay modelled",
 ]
 
 
@@ -589,7 +591,9 @@ def run(chk):
     chk.assumptions = ["sync/atomic operations are sequentially consistent (Go memory model)",
                        "the AddIf64 predicate is a pure, terminating function of its argument",
                        "preemption matters only between the atomic accesses (each has a yield point in front)",
-                       "sync.Mutex state word layout of Go 1.23 (locked=1, woken=2, starving=4, waiters=state>>3), as copied by loom/mutex.go"]
+                       "sync.Mutex state word layout of Go 1.23 (locked=1, woken=2, starving=4, waiters=state>>3), as copied by loom/mutex.go",
+                       "the runtime semaphore wakes a thread parked in runtime_SemacquireMutex only after a runtime_Semrelease (token counter); "
+                       "runtime_canSpin / runtime_nanotime are arbitrary (oracle numbers per Lock call)"]
     chk.cov["rule"] = ("c17a: case = (initial int64 word, one program of AddFlag/RemoveFlag/HasFlag/AddIf64 calls per thread, schedule of thread ids); the real "
                        "code runs it under the cooperative scheduler, the model runs at_step; compared: the event of every step (yield SITE id 14/15/16/17 or the "
                        "returned value), the round-robin completion and the value of the word after every step. Streams: every interleaving of 2 threads x 1-2 "
@@ -597,6 +601,11 @@ def run(chk):
                        "at the int64 boundaries; one schedule per reachable (model state, thread) edge for 3 threads; random schedules for 4 threads. "
                        "c17t: one TryLock with the state word rewritten before each of its three accesses (locked/woken/starving x waiters 0..4 at each point): events "
                        "and word after each access. c17c: Count on constructed words. c17s: real goroutines Lock/TryLock/Unlock with an occupancy counter (monitor only). "
+                       "c17x (streams mx-*): case = (one program of Lock(spin, starve)/TryLock/Unlock calls per thread, schedule); the real loom.Mutex.TryLock and a copy of "
+                       "the toolchain's sync.Mutex Lock/lockSlow/Unlock/unlockSlow (generated on this run, see mx_source) run on one state word under the cooperative "
+                       "scheduler, the model runs mx_step; compared per step: thread, pc before, access operands and outcome, pc after / returned value, state word, semaphore "
+                       "tokens; then round-robin completion. Monitor: at most one holder at any step, TryLock true only from locked=starving=0 setting only the locked bit, "
+                       "no throw/fatal, no thread blocked for ever, word 0 and no token at the end. "
                        "non-trivial = c17a: a CAS failed or an AddIf64 returned false or two threads interleave; c17t: not the all-zero word; c17c: waiters > 0")
     chk.run_proof_gate(PROOFS)
     binary = build_coop(chk)
